@@ -58,7 +58,7 @@ def register(db):
     # ---- DELAYED inspection: earliest due time first, list order within it
     NONEMPTY_LISTS = f"forall(t, 'datetime', implies(t in {Q}.delayed, len({Q}.delayed[t]) >= 1))"
     db.contract(
-        fn=C + "__consume_delayed", serves=["C15", "C05", "C01"], returns="Optional[sym[InMemMessage]]",
+        fn=C + "__consume_delayed", serves=["C15", "C05", "C01", "C14"], returns="Optional[sym[InMemMessage]]",
         requires=[NONEMPTY_LISTS],
         ghost_init={"s": "datetime"},
         ensures={
